@@ -45,6 +45,9 @@ def gen_cases(tier, seed):
     for size in (0, 9):
         for when in ("never", "before", "at_deadline"):
             cases.append({"t": "send", "size": size, "when": when})
+            cases.append({"t": "send", "size": size, "when": when, "other_entity": True})
+    # the same receiver scenarios while another entity of the process has configured its own fault handler table
+    cases += [dict(c, other_entity=True) for c in cases if c["t"] == "recv" and c["n"] <= 2 and c["L"] <= 2]
     return cases
 
 
@@ -262,7 +265,13 @@ def run_send(case):
 
 
 def run_case(case):
+    if case.get("other_entity"):
+        from ..world import other_entity_configures_fault_handlers
+
+        other_entity_configures_fault_handlers({"FILE_CHECKSUM_FAILURE": "cancel", "CHECK_LIMIT_REACHED": "abandon"})
     viol, obs, sample = {"recv": run_recv, "recv_race": run_recv_race, "send": run_send}[case["t"]](case)
+    if case.get("other_entity"):
+        obs["cases_next_to_other_entity_with_own_fault_table"] = 1
     for v in viol:
         v["case"] = case
     return {"viol": viol, "sig": case, "obs": obs, "sample": sample}
@@ -272,4 +281,4 @@ def exhaustive(tier):
     return True
 
 
-REQUIRED = {"recv_cases": 500, "recv_success": 50, "recv_fault": 50, "send_cases": 6, "race_cases": 100, "sender_check_limit_faults": 2, "expiries": 500}
+REQUIRED = {"recv_cases": 500, "recv_success": 50, "recv_fault": 50, "send_cases": 6, "race_cases": 100, "cases_next_to_other_entity_with_own_fault_table": 50, "sender_check_limit_faults": 2, "expiries": 500}
